@@ -50,7 +50,7 @@ pub fn run(ctx: &Ctx) {
     ctx.set_exhaustive(false);
     let openq = Quirks::from_keys(|k| ctx.quirk_open(k));
     let shapes = enumerate_shapes();
-    let per_shape: u32 = ctx.tier.pick(6, 400);
+    let per_shape: u32 = ctx.tier.pick(40, 600);
     let nshapes = shapes.len();
     let shards = 16usize;
     let results: Vec<(Local, Vec<Failure>)> = (0..shards)
